@@ -32,7 +32,8 @@ def check_C16(ctx):
     progs += [b"def cfg { host = 1\n port = 2\n user = 3\n pass = 4\n print hots }\n", b"def a { x = 1\n y = 2\n z = 3\n def b { w = 4\n v = 5\n print nosuch } }\n"] * 4
     from . import interp as _interp
     progs = _interp.drop_excluded(ctx, progs)
-    cases = [dict(id="a%d" % i, src_hex=p.hex(), opts="", name="input", sticky=(i % 7 == 0)) for i, p in enumerate(progs)]
+    cases = [dict(id="a%d" % i, src_hex=p.hex(), opts="", name="input", sticky=(i % 7 == 0), **({"seq": ["", "W", "", "t", ""]} if i % 5 == 0 else {}))
+             for i, p in enumerate(progs)]
     cases += [dict(id="b%d" % i, src_hex=p.hex(), opts="", name="input") for i, p in reversed(list(enumerate(progs)))]
     base = run_probe_env(ctx, "interp", cases, {}, "inproc")
     for i, p in enumerate(progs):
@@ -40,6 +41,12 @@ def check_C16(ctx):
         if not a or not b:
             continue
         ctx.count(1, casehash(p))
+        plain = [st for st in (a.get("seq") or []) if st["opts"] == ""]
+        if plain and any((st["class"], st.get("err", ""), st["out"], st["log"], st["blocks"], st["binding"]) !=
+                         (plain[0]["class"], plain[0].get("err", ""), plain[0]["out"], plain[0]["log"], plain[0]["blocks"], plain[0]["binding"]) for st in plain[1:]):
+            ctx.violation("executing a Prog (once with writers of its own, once traced) changes what later plain executions of the same Prog do",
+                          dict(src_hex=p.hex(), src=p[:300].decode("utf8", "replace"), sequence=["", "W", "", "t", ""]), impl=plain,
+                          theorem="C16_prog_readonly", key="prog-sticky")
         stc = a.get("sticky")
         if stc and stc.get("class") == "ok":
             want_out, want_log = a["obs"]["Out"], a["obs"]["Log"]
